@@ -11,6 +11,7 @@ use routee_compass::app::compass::config::frontier_model::{
     turn_restrictions::turn_restriction_builder::TurnRestrictionBuilder,
     vehicle_restrictions::vehicle_restriction_builder::VehicleRestrictionBuilder,
 };
+use routee_compass::app::compass::config::cost_model::cost_model_builder::CostModelBuilder;
 use routee_compass::app::compass::config::traversal_model::{
     distance_traversal_builder::DistanceTraversalBuilder, speed_lookup_builder::SpeedLookupBuilder,
 };
@@ -346,14 +347,30 @@ pub fn build_instance(scn: &Value) -> Result<Built, String> {
     };
     let access_model: Arc<dyn AccessModel> = Arc::new(RecA { inner: inner_a, rec: rec.clone() });
 
-    // cost model
-    let mut weights = HashMap::new();
-    weights.insert(String::from("distance"), jf(&scn["wd"]));
-    weights.insert(String::from("time"), jf(&scn["wt"]));
-    let mut vrates = HashMap::new();
-    vrates.insert(String::from("distance"), vrate(ji(&scn["rd"])));
-    vrates.insert(String::from("time"), vrate(ji(&scn["rt"])));
-    let mut nrates = HashMap::new();
+    // cost model: through the application's CostModelBuilder / CostModelService, with the weights and rates in force
+    // coming either from the configuration or from the query (the configuration then holds decoy values)
+    let from_query = scn["cost_src"].as_str().unwrap_or("config") == "query";
+    let rate_json = |f: i64| -> Value {
+        match f {
+            0 => json!({"type": "zero"}),
+            1 => json!({"type": "raw"}),
+            k => json!({"type": "factor", "factor": k as f64}),
+        }
+    };
+    let real_weights = json!({"distance": jf(&scn["wd"]), "time": jf(&scn["wt"])});
+    let real_rates = json!({"distance": rate_json(ji(&scn["rd"])), "time": rate_json(ji(&scn["rt"]))});
+    let mut cost_cfg = json!({"cost_aggregation": "sum"});
+    let mut cost_query = json!({});
+    if from_query {
+        cost_cfg["weights"] = json!({"distance": 7.0, "time": 0.25});
+        cost_cfg["vehicle_rates"] = json!({"distance": {"type": "factor", "factor": 9.0}, "time": {"type": "zero"}});
+        cost_query["weights"] = real_weights;
+        cost_query["vehicle_rates"] = real_rates;
+    } else {
+        cost_cfg["weights"] = real_weights;
+        cost_cfg["vehicle_rates"] = real_rates;
+    }
+    let mut cost_service = CostModelBuilder {}.build(&cost_cfg).map_err(|e| format!("cost builder: {}", e))?;
     let sur = scn["sur"].as_array().unwrap();
     if sur.iter().any(|s| ji(s) != 0) {
         let lookup: HashMap<EdgeId, Cost> = sur
@@ -362,16 +379,9 @@ pub fn build_instance(scn: &Value) -> Result<Built, String> {
             .filter(|(_, s)| ji(s) != 0)
             .map(|(i, s)| (EdgeId(i), Cost::new(jf(s))))
             .collect();
-        nrates.insert(String::from("distance"), NetworkCostRate::EdgeLookup { lookup });
+        cost_service.network_rates = Arc::new(HashMap::from([(String::from("distance"), NetworkCostRate::EdgeLookup { lookup })]));
     }
-    let cost_model = CostModel::new(
-        Arc::new(weights),
-        Arc::new(vrates),
-        Arc::new(nrates),
-        CostAggregation::Sum,
-        state_model.clone(),
-    )
-    .map_err(|e| format!("cost model: {}", e))?;
+    let cost_model = cost_service.build(&cost_query, state_model.clone()).map_err(|e| format!("cost model: {}", e))?;
 
     // frontier model: road classes (per-query allowed set), restricted turns, combination - all through the builders
     let mut models: Vec<Value> = vec![];
@@ -817,6 +827,7 @@ pub fn gen_scenario(r: &mut StdRng, o: &GenOpts) -> Value {
         "units": {"distance": "meters", "time": "seconds", "speed": "mps", "delay": "seconds"},
         "cls": [], "allowed_on": false, "allowed": [], "est_mode": "real", "hscript": [],
         "orient": "vertex", "osrc": 0, "odst": 0,
+        "cost_src": if r.gen_bool(0.35) {"query"} else {"config"},
     });
     // edge-oriented queries: origin / destination given as edges (forward searches, as the application runs them)
     let edge_oriented = match o.focus.as_str() {
